@@ -186,9 +186,9 @@ UnitAliases = {
     ('mil',): Unit.Mil,
     ('mrad',): Unit.MRad,
     ('thousandth', 'ths'): Unit.Thousandth,
-    ('inch/100yd', 'in/100yd', 'inch/100yd', 'in/100yard, inper100yd'): Unit.InchesPer100Yd,
+    ('inch/100yd', 'in/100yd', 'inch/100yd', 'in/100yard', 'inper100yd', 'inchesper100yd'): Unit.InchesPer100Yd,
     ('centimeter/100m', 'cm/100m', 'cm/100meter', 'centimeter/100meter', 'cmper100m'): Unit.CmPer100m,
-    ('hour', 'h'): Unit.OClock,
+    ('hour', 'h', 'oclock'): Unit.OClock,
 
     ('inch', 'in'): Unit.Inch,
     ('foot', 'feet', 'ft'): Unit.Foot,
@@ -833,10 +833,10 @@ def _parse_unit(input_: str) -> Optional[Unit]:
         raise TypeError(f"type str expected for 'input_', got {type(input_)}")
     if hasattr(PreferredUnits, input_):
         return getattr(PreferredUnits, input_)
-    try:
-        return Unit[input_]
-    except KeyError:
-        return _find_unit_by_alias(input_, UnitAliases)
+    for unit in Unit:
+        if unit.name.lower() == input_:
+            return unit
+    return _find_unit_by_alias(input_, UnitAliases)
 
 
 def _parse_value(input_: Union[str, float, int],
